@@ -423,3 +423,42 @@ def replay_case(case_id, model):
     out["results"] = ctx.results
     out["notes"] = [str(n) for n in ctx.notes]
     return out
+
+
+def concrete_proxy_run(case_id, model):
+    """engine cross-check, proxy side: run the harness under the symbolic numpy proxy with CONSTANT symbols (values of
+    `model`), so every decision is concrete up to leaf generators.  Returns {clause: True/False/None}"""
+    from gvc import patch, prove
+    from gvc.explore import Explorer
+
+    case = BY_ID[case_id]
+    patch.activate()
+    ring = SymRing(case.symbols, mode=case.mode, spare=max(case.spare, 60))
+
+    class CC(SymCtx):
+        def sym(self, name):
+            v = model.get(name, 0)
+            if isinstance(v, (list, tuple)):
+                return Sym.const(Fraction(v[0])) + Sym.const(Fraction(v[1])) * Sym(self.ring.I, self.ring.one)
+            return Sym.const(Fraction(str(v)))
+
+    ex = Explorer(ring, oracle=prove.oracle_real(800) if case.mode == "real" else prove.oracle_field(1.0), max_paths=40, time_limit=120)
+    out = {}
+    status = "ok"
+    try:
+        paths = ex.run(lambda e: case.fn(CC(e, ring, case)))
+    except Exception as e:
+        return dict(status="explore-error: %s" % e, clauses={})
+    live = [p for p in paths if p.outcome[0] != "infeasible"]
+    if any(p.outcome[0] == "gap" for p in live):
+        return dict(status="gap", clauses={})
+    raised = [p for p in live if p.outcome[0] == "raise"]
+    for p in live:
+        for ob in p.obligations:
+            v = ob.goal.args[0] if ob.goal.op == "const" else None
+            key = ob.name
+            if key in out and out[key] != v:
+                out[key] = None
+            else:
+                out.setdefault(key, v)
+    return dict(status="ok", clauses=out, npaths=len(live), raised=[type(p.outcome[1]).__name__ for p in raised])
